@@ -344,8 +344,13 @@ async def do_step(s, st):
                 s.epoch_marks[side].append(len(w.tap[side]))
             s.trace.append("reset_seq_num(both)")
     elif k == "break":
-        await w.break_("eof", "eof")
-        s.trace.append("break")
+        # every third break cuts the frame that was next in flight in two (its head still arrives)
+        partial = None
+        sides = [x for x in "IA" if w.in_flight(x)]
+        if sides and (len(s.trace) % 3 == 0):
+            partial = (sides[len(s.trace) % len(sides)], (0.2, 0.5, 0.9)[len(s.trace) % 3])
+        await w.break_("eof", "eof", partial=partial)
+        s.trace.append("break" + (f":mid-frame->{partial[0]}@{partial[1]}" if partial else ""))
         await recover_link(s)
     elif k == "send_dying":
         # the connection is lost exactly under a send: write() took the bytes, drain() raises.  Whether the peer got them nobody knows;
@@ -458,6 +463,7 @@ def end_oracle(acc, s, how, cid, restart_info):
            "logon_errors": s.logon_errors}
     acc.add("receivers_stopped_while_their_handler_was_suspended", s.slow_stops)
     acc.add("sends_cut_by_a_lost_connection", s.sends_cut_by_a_lost_connection)
+    acc.add("breaks_in_the_middle_of_a_frame", s.w.partial_frames_delivered)
     acc.add("original_transmissions_with_explicit_possdup_n", s.explicit_n)
     # (3) no reuse of an outbound number for a different message
     acc.oracle("no-number-reuse")
